@@ -180,8 +180,10 @@ def extra_checks(rng, tier, g_, info):
     # dangling symlink — with every sub-command (the freshly drawn wallet of `new` included)
     m = 0
     subs = [sub_valid(rng) for _ in range(2 if tier == "quick" else 10)] + [["new"], ["new", "--mnemonic-len", "12"]]
-    for fsk in ("parentfile", "trailslash", "longname", "symloop", "dangling", "filetrail", "filetraildot"):
-        for sv in subs:
+    for fsk in ("parentfile", "trailslash", "longname", "symloop", "dangling", "filetrail", "filetraildot",
+                "alias-dotslash", "alias-dblslash", "alias-subdotdot", "alias-linkdotdot", "alias-symfile",
+                "alias-relative", "alias-reldotdot"):
+        for sv in (subs if not fsk.startswith("alias-") or tier == "thorough" else subs[:1] + subs[-1:]):
             argv = ["--file", "@F"] + (["--paranoia"] if rng.random() < 0.5 else []) + ["--interval", "0", "1"] + sv
             line = "cli %s %s %s" % (fsk, hx(bytes(rng.getrandbits(8) for _ in range(40))), enc(argv))
             out = impl.run(line)
@@ -192,6 +194,24 @@ def extra_checks(rng, tier, g_, info):
             elif v.startswith(("overwrote", "unexpected-files", "nonzero-status", "file-and-stdout", "existing-sibling")):
                 yield line, "--file target of class %s: CLI broke the output contract: %s" % (fsk, v[:120])
     info["odd_file_targets"] = m
+    # CRASH POINTS: the run is interrupted (KeyboardInterrupt) at its k-th derivation step.  It then ends with a
+    # non-zero status — so it must have created no file and printed no wallet data
+    q = 0
+    for argv in (["--file", "@F", "--interval", "0", "2"] + sub_valid(rng), ["--interval", "0", "2"] + sub_valid(rng),
+                 ["--file", "@F", "--interval", "0", "1", "new"]):
+        osb = bytes(rng.getrandbits(8) for _ in range(40))
+        _, det0 = impl.cli_run("absent", osb, argv)
+        total = det0.get("hmac_calls") or 0
+        ks = sorted(set([1, 2, 3, 5, 8, total // 2, total - 1, total] + [rng.randint(1, max(1, total)) for _ in range(3)]))
+        for k in [k_ for k_ in ks if 1 <= k_ <= total][:(40 if tier == "thorough" else 7)]:
+            canon, det = impl.cli_run("absent", osb, argv, interrupt_at=k)
+            q += 1
+            if canon.startswith(("nonzero-status", "file-and-stdout", "unexpected-files", "emit")) or det.get("created"):
+                yield ("# cli (target absent) %s, OS bytes %s, interrupted (KeyboardInterrupt) at HMAC call %d of %d" % (
+                    " ".join(argv), osb.hex(), k, total),
+                    "an interrupted run (exit status %s) left output behind: %s" % (det.get("status"), canon[:80]))
+                return
+    info["cli_crash_points"] = q
     # environment variants of the REAL program (subprocess): stdio encoding, locale, hash seed, optimisation — with
     # ASCII and non-ASCII secrets.  Exit status 0 => stdout is the API result; otherwise stdout carries no wallet data.
     envs = [{"PYTHONIOENCODING": "ascii"}, {"PYTHONIOENCODING": "latin-1"}, {"LC_ALL": "C", "LANG": "C", "PYTHONUTF8": "0"},
